@@ -110,11 +110,11 @@ theorem rich_segment_terminator (lb : Nat → Nat → Bool) (l : List Cell) :
   firstLineSegment_term lb l true (by intro h; cases h)
 
 /-- `draw_one_line_per_row` (row loop of `Text.drawSoftwrap` / `RichText.drawSoftwrap`): as long as the
-lines fit below `Max.Height` (`row + #lines ≤ Max.Height + 1`, the bound the loop itself uses), line
+lines fit below `Max.Height` (`row + #lines ≤ Max.Height`, the bound the loop itself uses), line
 `k` is written to row `row + k` — one line per row, none skipped, none merged — and the cells written
 in that row are `drawRow` of exactly that line. -/
 theorem draw_one_line_per_row (maxW maxH : UInt16) (ls : List (List Cell)) (row : UInt16)
-    (h : row.toNat + ls.length ≤ maxH.toNat + 1) :
+    (h : row.toNat + ls.length ≤ maxH.toNat) :
     (drawRows maxW maxH row ls).map (·.2) = ls.map (drawRow maxW 0) ∧
     (drawRows maxW maxH row ls).map (·.1.toNat) = List.range' row.toNat ls.length :=
   drawRows_spec maxW maxH ls row h
